@@ -79,6 +79,7 @@ def gen_case(rng, malformed=False, maxops=40):
     grp_type = {}
     ids = []            # predicted ids of the segments present
     next_explicit = [rng.choice([0, 1, 3, 10])]
+    explicit_low = rng.random() < 0.25
     ops = []
 
     def pick_group(t):
@@ -97,15 +98,19 @@ def gen_case(rng, malformed=False, maxops=40):
             return None
         if idmode == "explicit":
             next_explicit[0] += rng.choice([1, 1, 1, 2, 5])
-            return next_explicit[0] - 1 if rng.random() < 0.97 else (rng.choice(ids) if ids else 0)
+            base = 0 if explicit_low else 200          # low explicit ids collide with later automatic ones
+            return base + next_explicit[0] - 1 if rng.random() < 0.99 else (rng.choice(ids) if ids else 0)
         r = rng.random()
         if r < 0.5:
             return None
-        if r < 0.56:
+        if r < 0.52:
             return 0
-        if r < 0.62 and ids:
-            return rng.choice(ids)
-        return rng.choice([len(ids), len(ids) + 1, len(ids) + 2, len(ids) + 7, rng.randint(0, 60)])
+        if r < 0.535 and ids:
+            return rng.choice(ids)                      # an id in use
+        if r < 0.56:
+            return len(ids) + rng.choice([0, 1, 2])     # a later automatic id will collide with it
+        next_explicit[0] += rng.choice([1, 2, 9])
+        return 100 + next_explicit[0]
 
     def flags():
         if flags_mode == "default":
@@ -123,7 +128,7 @@ def gen_case(rng, malformed=False, maxops=40):
             sid = pick_id()
             ro, op_ = flags()
             parent = rng.choice(ids) if ids else None
-            if ids and rng.random() < 0.01:
+            if ids and rng.random() < 0.003:
                 parent = None                               # forgotten parent -> Exception
             op = {"op": "addSegment", "prox": rng.random() < 0.6 or not ids, "seg_id": sid,
                   "name": rng.choice([None, None, None, "nm%d" % k, ""]), "parent": parent,
@@ -323,8 +328,10 @@ def apply_op(cell, op, k, track):
                                      reorder_segment_groups=op["reorder"], optimise_segment_groups=op["optimise"])
     elif o == "addSegmentGroup":
         cell.add_segment_group(op["group_id"])
+        track["junk_group"] |= not op["group_id"]
     elif o == "addUnbranchedSegmentGroup":
         cell.add_unbranched_segment_group(op["group_id"])
+        track["junk_group"] |= not op["group_id"]
     elif o == "setupDefault":
         cell.setup_default_segment_groups(use_convention=op["use_convention"], default_groups=list(op["names"]))
     elif o == "setupNmlCell":
@@ -336,6 +343,7 @@ def apply_op(cell, op, k, track):
             track["group_types"] = {}
             track["default_named"] = False
             track["dup_cause"] = []
+            track["junk_group"] = False
             before = []
     elif o == "reorder":
         cell.reorder_segment_groups()
@@ -377,7 +385,7 @@ def run_real(case):
     import neuroml
     import neuroml.writers as W
     track = {"typed": [], "nonconv": False, "foreign": False, "in_use_accepted": [], "group_types": {},
-             "default_named": False, "dup_cause": []}
+             "default_named": False, "dup_cause": [], "junk_group": False}
     steps, final = [], None
     with quiet():
         cell = component_factory("Cell", id="c15")
@@ -468,6 +476,10 @@ def oracle(ctx, case, steps, final, track):
             if s.parent is not None and s.parent.segments not in ids:
                 fails.append(("C15:dangling-parent", "segment %s has parent %s which does not exist" % (s.id, s.parent.segments)))
                 break
+    if "err" in final["finish"] and track["junk_group"] and final["finish"]["err"] == "ValueError":
+        # add_segment_group(None) / ("") is outside the property's quantifier: it leaves a group without an id
+        ctx.count("oracle-skipped:group-without-id")
+        return fails
     if "err" in final["finish"]:
         fails.append(("C15:finish-raises:" + suffix(track), "reorder_segment_groups()+optimise_segment_groups() raised %s" % final["finish"]["err"]))
         return fails
@@ -636,7 +648,7 @@ CORPUS = [
 def run(ctx):
     opt_fixed = probe_opt_fixed()
     ctx.extra["optimise_segment_group_variant"] = "repaired (C14)" if opt_fixed else "shipped"
-    n = ctx.n(260, 2600) * ctx.search_mult
+    n = ctx.n(1200, 10000) * ctx.search_mult
     cases = [json.loads(json.dumps(c)) for c in CORPUS]
     for i in range(n):
         cases.append(gen_case(ctx.rng, malformed=(i % 5 == 4)))
